@@ -108,7 +108,7 @@ impl Prop for C13 {
             .boxed()
     }
     fn random_cases(&self, tier: Tier) -> u32 {
-        tier.pick(20_000, 500_000)
+        tier.pick(150_000, 1_500_000)
     }
     fn enumerate(&self, _tier: Tier) -> Vec<LouvainCase> {
         let mut v = vec![];
